@@ -1,6 +1,6 @@
 (* Replays an observed operation history on the model and reports the first observation
    that differs. Used by the generated case files (C01, C16, ...). *)
-From LB Require Import Base.Prelude Log.Model Log.Retention Log.Compact Codec.Message.
+From LB Require Import Base.Prelude Log.Model Log.Retention Log.Compact Codec.Message Api.Range.
 Open Scope Z_scope.
 
 Inductive lop :=
@@ -14,6 +14,8 @@ Inductive lop :=
 | LState (nw od hw : Z)
 | LClean (ttl : Z)
 | LLayout (lay : list (Z * Z * Z))
+| LHwSet (h : Z)                       (* OverrideHighWatermark *)
+| LSub (sp : startpos) (tp : stoppos) (rev : bool) (offs : list Z) (e : N)
 | LCleanC (ttl : Z)                     (* Clean() on a log with Compact = true *)
 | LRRead (unc : bool) (start stop : Z) (found : bool) (recs : list rec)   (* reverse reader *)
 | LCleanRoll (ttl : Z) (during : list (list msg * N * list Z))   (* appends that arrive while Clean runs *)
@@ -32,6 +34,9 @@ Fixpoint list_eqb {A} (eq : A -> A -> bool) (a b : list A) : bool :=
 
 Definition end_code (e : rd_end) : N :=
   match e with EndWait => 0 | EndReadonly => 1 | EndNotFound => 2 | EndOther => 3 end%N.
+
+Definition sub_end_code (e : sub_end) : N :=
+  match e with EStop => 0 | EReadonlyEnd => 1 | EWait => 2 | EEof => 3 | EInvalid => 4 | EEmpty => 5 | ENoReader => 6 | ETsError => 7 end%N.
 
 Record lcase := { lc_maxb : Z; lc_cc : bool; lc_lim : limits; lc_ops : list lop }.
 
@@ -67,6 +72,10 @@ Definition step_log (maxb : Z) (cc : bool) (lim : limits) (l : log) (o : lop) : 
   | LState nw od hw => (l, (newest l =? nw) && (oldest l =? od) && (l_hw l =? hw))
   | LClean ttl => (clean lim ttl l, true)
   | LCleanC ttl => (clean_compact key_of false lim ttl l, true)
+  | LHwSet h => (mkLog (l_segs l) h (l_cache l) (l_ro l), true)
+  | LSub sp tp rv offs e =>
+    let '(d, en) := subscribe l sp tp rv in
+    (l, list_eqb Z.eqb d offs && N.eqb (sub_end_code en) e)
   | LRRead unc start stop found recs =>
     match read_reverse true l start unc stop with
     | Some rs => (l, found && list_eqb rec_eqb rs recs)
